@@ -23,6 +23,8 @@ class C10(Prop):
                 "NV.C10.dueOf_succ_cur",
                 "NV.C10.newCallOut_rot_due",
                 "NV.C10.newCallOut_rot_pos",
+                "NV.C10.coRot_due",
+                "NV.C10.inWheel_newCallOut",
                 "NV.C10.timeLeft_eq",
                 "NV.C10.cum_insertDelta",
                 "NV.C10.cum_removeFirst",
